@@ -14,13 +14,16 @@
 (***************************************************************************)
 EXTENDS Naturals, Sequences, FiniteSets, TLC, Json
 
-CONSTANTS Threads, Order, History
+CONSTANTS Threads, Order, History,
+          ReleaseAt    \* "after-publish": the writer lock is held until the new state is published (the code);
+                       \* "before-publish": it is released once the commit is durable (a tempting "optimisation")
 
-VARIABLES pc, snap, ctr, holder, done, hist
-vars == <<pc, snap, ctr, holder, done, hist>>
+VARIABLES pc, snap, ctr, holder, done, hist,
+          pending    \* thread -> value made durable but not yet published
+vars == <<pc, snap, ctr, holder, done, hist, pending>>
 
 Init == /\ pc = [t \in Threads |-> "start"] /\ snap = [t \in Threads |-> 0] /\ ctr = 0
-        /\ holder = "none" /\ done = 0 /\ hist = <<>>
+        /\ holder = "none" /\ done = 0 /\ hist = <<>> /\ pending = [t \in Threads |-> 0]
 
 Log(t, point) == hist' = IF History THEN Append(hist, <<t, point>>) ELSE hist
 
@@ -28,22 +31,30 @@ TakeSnapshot(t) ==
   /\ pc[t] = (IF Order = "snapshot-first" THEN "start" ELSE "locked")
   /\ snap' = [snap EXCEPT ![t] = ctr]
   /\ pc' = [pc EXCEPT ![t] = IF Order = "snapshot-first" THEN "snapped" ELSE "ready"]
-  /\ Log(t, "capi.write.after_snapshot") /\ UNCHANGED <<ctr, holder, done>>
+  /\ Log(t, "capi.write.after_snapshot") /\ UNCHANGED <<ctr, holder, done, pending>>
 
 Acquire(t) ==
   /\ pc[t] = (IF Order = "snapshot-first" THEN "snapped" ELSE "start")
   /\ holder = "none" /\ holder' = t
   /\ pc' = [pc EXCEPT ![t] = IF Order = "snapshot-first" THEN "ready" ELSE "locked"]
-  /\ Log(t, "capi.write.after_begin_write") /\ UNCHANGED <<snap, ctr, done>>
+  /\ Log(t, "capi.write.after_begin_write") /\ UNCHANGED <<snap, ctr, done, pending>>
 
-ExecuteCommit(t) ==   \* evaluate against the snapshot, commit, release the writer lock
+ExecuteDurable(t) ==  \* evaluate against the snapshot, log + fsync + node table: durable, not yet visible
   /\ pc[t] = "ready" /\ holder = t
-  /\ ctr' = snap[t] + 1 /\ holder' = "none" /\ done' = done + 1
+  /\ pending' = [pending EXCEPT ![t] = snap[t] + 1]
+  /\ holder' = IF ReleaseAt = "before-publish" THEN "none" ELSE holder
+  /\ pc' = [pc EXCEPT ![t] = "durable"]
+  /\ Log(t, "commit.after_idmap") /\ UNCHANGED <<snap, ctr, done>>
+
+Publish(t) ==         \* publish labels and the run: visible to new snapshots; release the writer lock
+  /\ pc[t] = "durable"
+  /\ ctr' = pending[t] /\ done' = done + 1
+  /\ holder' = IF holder = t THEN "none" ELSE holder
   /\ pc' = [pc EXCEPT ![t] = "done"]
-  /\ Log(t, "done") /\ UNCHANGED snap
+  /\ Log(t, "done") /\ UNCHANGED <<snap, pending>>
 
 Terminated == \A t \in Threads : pc[t] = "done"
-Next == (\E t \in Threads : TakeSnapshot(t) \/ Acquire(t) \/ ExecuteCommit(t)) \/ (Terminated /\ UNCHANGED vars)
+Next == (\E t \in Threads : TakeSnapshot(t) \/ Acquire(t) \/ ExecuteDurable(t) \/ Publish(t)) \/ (Terminated /\ UNCHANGED vars)
 Spec == Init /\ [][Next]_vars /\ WF_vars(Next)
 
 NoLostUpdate == Terminated => ctr = done
